@@ -26,6 +26,7 @@ OBLIGATIONS = [
     (P + "only_regular_files_streamed_posix", "under POSIX file types (stat follows links) and 'a socket cannot be opened for reading': a streamed file is S_IFREG"),
     (P + "listing_only_when_enabled", "a listing is produced only if file_server.listing is on"),
     (P + "listing_skips_dotfiles_and_escapes", "every row of a listing is an entry of the directory read, does not start with '.', and its text un-escapes to name(+'/') with no < > \" ' and only well-formed &-references; the title is the escaped request path"),
+    (P + "listing_href_attribute_safe", "every row's href (urlencode(name)+'/'? over the byte classes extracted from urlencode_impl) has none of ' \" < > &, so the anchor <a href='..'>text</a> parses back as exactly (href, text) and satisfies Spec.rowOk"),
     (P + "listing_rows_exact", "names shown = readdir entries, in order, filtered by: not starting with '.', stat ok with S_IFDIR or S_IFREG bit"),
     (P + "defaults_are_safe", "constructor defaults extracted from the source: check_symlink on, listing off, index.html"),
     (P + "redirect_target", "a redirect goes to file_name ++ '/' only, for a directory, when an index exists or listing is on"),
